@@ -190,9 +190,39 @@ func execRnd(a []Tok) string {
 	a2 := g3(r3)
 	g4, r4 := stats.Rand(d), rand.New(rand.NewSource(seed))
 	b1, b2 := g4(r4), g4(r4)
+	// a source whose first uniform variate is exactly 0 (a 2^-53 event with an ordinary source): the
+	// generic generator redraws from THE SAME source; NormalDist and distributions with their own Rand
+	// never ask for a uniform variate this way
+	if _, own := d.(interface{ Rand(*rand.Rand) float64 }); !own {
+		z := rand.New(&zeroFirst{rest: rand.NewSource(seed)})
+		got := stats.Rand(d)(z)
+		y := 0.0
+		z2 := rand.New(&zeroFirst{rest: rand.NewSource(seed)})
+		for y == 0 {
+			y = z2.Float64()
+		}
+		if want := stats.InvCDF(d)(y); math.Float64bits(got) != math.Float64bits(want) {
+			panic(fmt.Sprintf("Rand with a source whose first variate is 0 returned %v, InvCDF(next variate) is %v", got, want))
+		}
+	}
 	same := func(x, y float64) bool { return math.Float64bits(x) == math.Float64bits(y) }
 	return fmtF(v) + " " + fmtF(w) + " " + fmtF(again) + " " + fmtB(same(a1, b1) && same(a2, b2) && r3.Int63() == r4.Int63())
 }
+
+// zeroFirst is a rand.Source whose first value is 0; afterwards it follows rest.
+type zeroFirst struct {
+	used bool
+	rest rand.Source
+}
+
+func (z *zeroFirst) Int63() int64 {
+	if !z.used {
+		z.used = true
+		return 0
+	}
+	return z.rest.Int63()
+}
+func (z *zeroFirst) Seed(int64) {}
 
 // randPW builds a random well-formed piecewise CDF with dyadic levels.
 func randPW(rng *rand.Rand) string {
